@@ -8,7 +8,8 @@
 // Subset: functions/methods whose params/results are integers, bool, float64 or
 // structs of those; statements := = op= ++ -- if/else return; expressions:
 // arithmetic, bitwise, shifts, comparisons, && || !, conversions, field access,
-// calls to other translated functions.  Anything else makes the function
+// calls to other translated functions; a `string` parameter is represented by its
+// length (BitVec 64) and only `len(s)` may be applied to it.  Anything else makes the function
 // UNTRANSLATABLE: the tool prints `UNTRANSLATABLE <func>: <reason>` on stderr,
 // emits no definition for it (so every theorem over it fails to elaborate) and
 // exits 3 after writing the rest.
@@ -151,6 +152,10 @@ func (t *tr) leanType(ty types.Type) string {
 			return "Bool"
 		case types.Float64:
 			return "F64"
+		case types.String:
+			// a Go string is represented by its length only (int, >= 0); the only operation
+			// accepted on it is len(s) (see call); anything else is outside the subset
+			return "(BitVec 64)"
 		}
 	case *types.Tuple:
 		var parts []string
@@ -253,6 +258,11 @@ func (t *tr) expr(e ast.Expr) string {
 	case *ast.Ident:
 		if x.Name == "true" || x.Name == "false" {
 			return x.Name
+		}
+		if tv, ok := t.p.info.Types[x]; ok && tv.Type != nil {
+			if b, ok := tv.Type.Underlying().(*types.Basic); ok && b.Info()&types.IsString != 0 {
+				bail("string value %s used other than in len(%s)", x.Name, x.Name)
+			}
 		}
 		return leanIdent(x.Name)
 	case *ast.SelectorExpr:
@@ -445,6 +455,17 @@ func (t *tr) call(x *ast.CallExpr) string {
 	}
 	var name string
 	var args []string
+	// len(s) of a string-typed identifier: the identifier already denotes the length
+	if id, ok := x.Fun.(*ast.Ident); ok && id.Name == "len" && len(x.Args) == 1 {
+		if _, isBuiltin := t.p.info.Uses[id].(*types.Builtin); isBuiltin {
+			if arg, ok := x.Args[0].(*ast.Ident); ok {
+				if b, ok := t.typeOf(arg).Underlying().(*types.Basic); ok && b.Kind() == types.String {
+					return leanIdent(arg.Name)
+				}
+			}
+			bail("len of a non-string or non-identifier operand")
+		}
+	}
 	switch f := x.Fun.(type) {
 	case *ast.Ident:
 		name = f.Name
